@@ -241,6 +241,112 @@ theorem type_inter_superset (cap k : Nat) (hc : 2 ≤ cap) :
         cases he
         exact ⟨vs, rfl, fun x hx => ih t' n1 wa.1 wb.1 h1 x (hall x hx) (hall' x hx), C11.inter_superset cap hc sz sz' wa.2.1 wb.2.1 _ hlen hlen'⟩
 
+/-! ## The `none` branch of the model is exactly "shapes differ"
+
+`DTLat.union` / `DTLat.inter` return `none` where the model does not cover the pair.  The theorems above would hold for the wrong
+reason if that branch were taken on pairs of the fragment; `union_isSome` / `inter_isSome` show it is taken exactly when the two
+types differ in shape (leaf optionality ignored), and `type_union_total` / `type_inter_total` restate the two superset theorems
+without the `= some _` hypothesis. -/
+
+/-- same constructor skeleton, nullable and plain integer leaves identified -/
+def sameShape : DT → DT → Bool
+  | .int _, .int _ | .int _, .opt _ | .opt _, .int _ | .opt _, .opt _ => true
+  | .pair a b, .pair c d => sameShape a c && sameShape b d
+  | .list t _, .list u _ => sameShape t u
+  | _, _ => false
+
+theorem union_isSome (cap : Nat) : ∀ (A B : DT), (DTLat.union cap A B).isSome = sameShape A B := by
+  intro A
+  induction A with
+  | int a => intro B; cases B <;> simp [DTLat.union, sameShape]
+  | opt a => intro B; cases B <;> simp [DTLat.union, sameShape]
+  | pair a b iha ihb =>
+    intro B
+    cases B with
+    | pair c d =>
+      have h1 := iha c; have h2 := ihb d
+      simp only [DTLat.union, sameShape]
+      cases hu1 : DTLat.union cap a c <;> cases hu2 : DTLat.union cap b d <;> simp_all
+    | _ => simp [DTLat.union, sameShape]
+  | list t sz ih =>
+    intro B
+    cases B with
+    | list u sz2 =>
+      have h1 := ih u
+      simp only [DTLat.union, sameShape]
+      cases hu1 : DTLat.union cap t u <;> simp_all
+    | _ => simp [DTLat.union, sameShape]
+
+theorem inter_isSome (cap : Nat) : ∀ (A B : DT), (DTLat.inter cap A B).isSome = sameShape A B := by
+  intro A
+  induction A with
+  | int a => intro B; cases B <;> simp [DTLat.inter, sameShape]
+  | opt a => intro B; cases B <;> simp [DTLat.inter, sameShape]
+  | pair a b iha ihb =>
+    intro B
+    cases B with
+    | pair c d =>
+      have h1 := iha c; have h2 := ihb d
+      simp only [DTLat.inter, sameShape]
+      cases hu1 : DTLat.inter cap a c <;> cases hu2 : DTLat.inter cap b d <;> simp_all
+    | _ => simp [DTLat.inter, sameShape]
+  | list t sz ih =>
+    intro B
+    cases B with
+    | list u sz2 =>
+      have h1 := ih u
+      simp only [DTLat.inter, sameShape]
+      cases hu1 : DTLat.inter cap t u <;> simp_all
+    | _ => simp [DTLat.inter, sameShape]
+
+/-- a reported inclusion only ever relates types of the same shape -/
+theorem subset_sameShape (cap : Nat) : ∀ (A B : DT), subset cap A B = true → sameShape A B = true := by
+  intro A
+  induction A with
+  | int a => intro B; cases B <;> simp [subset, sameShape]
+  | opt a => intro B; cases B <;> simp [subset, sameShape]
+  | pair a b iha ihb =>
+    intro B
+    cases B with
+    | pair c d =>
+      simp only [subset, sameShape, Bool.and_eq_true]
+      exact fun h => ⟨iha c h.1, ihb d h.2⟩
+    | _ => simp [subset]
+  | list t sz ih =>
+    intro B
+    cases B with
+    | list u sz2 =>
+      simp only [subset, sameShape, Bool.and_eq_true]
+      exact fun h => ih u h.1
+    | _ => simp [subset]
+
+/-- **Union, total form**: on every pair of same-shaped types of the fragment the union exists and contains both operands. -/
+theorem type_union_total (cap k : Nat) (hc : 2 ≤ cap) (A B : DT) (wa : WFT cap k A) (wb : WFT cap k B) (hs : sameShape A B = true) :
+    ∃ U, DTLat.union cap A B = some U ∧ ∀ v, mem A v ∨ mem B v → mem U v := by
+  have h := union_isSome cap A B
+  rw [hs] at h
+  obtain ⟨U, hU⟩ := Option.isSome_iff_exists.mp h
+  exact ⟨U, hU, type_union_superset cap k hc A B U wa wb hU⟩
+
+/-- **Intersection, total form.** -/
+theorem type_inter_total (cap k : Nat) (hc : 2 ≤ cap) (A B : DT) (wa : WFT cap k A) (wb : WFT cap k B) (hs : sameShape A B = true) :
+    ∃ N, DTLat.inter cap A B = some N ∧ ∀ v, mem A v → mem B v → mem N v := by
+  have h := inter_isSome cap A B
+  rw [hs] at h
+  obtain ⟨N, hN⟩ := Option.isSome_iff_exists.mp h
+  exact ⟨N, hN, type_inter_superset cap k hc A B N wa wb hN⟩
+
+/-- **Lattice coherence on the fragment**: whenever `A ⊆ B` is reported, both the union and the intersection of the pair exist,
+the union still contains every value of `B` and the intersection every value of `A` (no value is lost by going through the
+join or the meet of a comparable pair). -/
+theorem subset_union_inter (cap k : Nat) (hc : 2 ≤ cap) (hk : k * k < cap) (A B : DT) (wa : WFT cap k A) (wb : WFT cap k B)
+    (h : subset cap A B = true) :
+    ∃ U N, DTLat.union cap A B = some U ∧ DTLat.inter cap A B = some N ∧ (∀ v, mem B v → mem U v) ∧ (∀ v, mem A v → mem N v) := by
+  have hs := subset_sameShape cap A B h
+  obtain ⟨U, hU, hu⟩ := type_union_total cap k hc A B wa wb hs
+  obtain ⟨N, hN, hn⟩ := type_inter_total cap k hc A B wa wb hs
+  exact ⟨U, N, hU, hN, fun v hv => hu v (Or.inr hv), fun v hv => hn v hv (type_subset_sound cap k hc hk A B wa wb h v hv)⟩
+
 /-- non-vacuity: a struct of a nullable integer and a list, a wider one, and a value of the first -/
 example :
     let A : DT := .pair (.opt [(1, 3)]) (.list (.int [(0, 5)]) [(1, 2)])
